@@ -234,6 +234,19 @@ theorem source_return_rejected_body_once (acc : Acc) (d : FuncDecl) (p : Provide
   rw [wrapper_is_source acc d p args _ hok]
   exact C07.return_rejected_body_once acc d p args v σ st r hp ha hr
 
+/-- **C12 about the source**: the mapping the provider returns at this call is the initial binding table of this call's
+    context (an object given to the decorator, or `"self"`), no provider means the empty table, and something that does not
+    implement the protocol is refused before anything is checked or called -/
+theorem source_provider_mapping_is_initial (acc : Acc) (d : FuncDecl) (σ : Scope) (args : List (Name × Value)) (b : BodyResult) :
+    Gen.wrapperCall acc d (.obj (some σ)) args b = Gen.wrapperMain acc d args b σ ∧
+    Gen.wrapperCall acc d (.self (some σ)) args b = Gen.wrapperMain acc d args b σ ∧
+    Gen.wrapperCall acc d .absent args b = Gen.wrapperMain acc d args b [] ∧
+    Gen.wrapperCall acc d (.obj none) args b = { bodyCalls := 0, argsCheckedBeforeBody := false, result := .rejected .scopeProvider } ∧
+    Gen.wrapperCall acc d (.self none) args b = { bodyCalls := 0, argsCheckedBeforeBody := false, result := .rejected .scopeProvider } := by
+  refine ⟨?_, ?_, ?_, ?_, ?_⟩ <;>
+    simp [Gen.wrapperCall, Provider.isSelf, Provider.given, Provider.selfImplements, Provider.objImplements, Provider.selfScope,
+      Provider.objScope]
+
 /-- non-vacuity: a declaration and bound arguments that satisfy `CallOK` -/
 theorem example_callOK :
     CallOK { params := [(['x'], { isTuple := false, anns := [none] })], ret := none } [(['x'], .other)] := by
